@@ -12,6 +12,7 @@ CONFIGS = {
         ("QuotaCallQ.cfg", dict(M=16, K=1 << 60)),
         ("QuotaApiSmallQ.cfg", dict(M=1 << 20, K=1)),
         ("QuotaTimeQ.cfg", dict(M=1 << 20, K=1)),
+        ("QuotaCoQ.cfg", dict(M=1 << 20, K=1)),
     ],
     "thorough": [
         ("QuotaCpuApi.cfg", dict(M=16, K=1 << 60)),
@@ -71,6 +72,8 @@ def run(prop, tier, only_inv=None):
                     o["n"] = str(a["n"]) if a["op"] == "tick" else f(a["n"])
                 if "lv" in a:
                     o["lv"] = a["lv"]
+                if "co" in a:
+                    o["co"] = a["co"]
                 if "err" in a:
                     o["err"] = a["err"]
                 if "def" in a:
